@@ -145,7 +145,7 @@ macro_rules! fmt_invalid_digit {
             if is_suffix && $is_end && $iter.is_buffer_empty() {
                 // Break out of the loop, we've finished parsing.
                 break;
-            } else if !$iter.is_buffer_empty() {
+            } else if is_suffix && !$iter.is_buffer_empty() {
                 // Haven't finished parsing, so we're going to call
                 // `invalid_digit!`. Need to ensure we include the
                 // base suffix in that.
